@@ -14,7 +14,7 @@
 From Coq Require Import String.
 From FA Require Import model.Base model.Json model.Parse model.SchemaSpec model.Inline model.Canon model.Repo model.Piecewise model.Pout
      model.Value model.Schema model.Codec model.Bridge
-     proofs.JsonProofs proofs.ParseProofs proofs.CanonProofs proofs.InlineProofs proofs.PiecewiseProofs proofs.PiecewiseInlineProofs proofs.CodecProofs proofs.BridgeProofs.
+     proofs.JsonProofs proofs.ParseProofs proofs.CanonProofs proofs.InlineProofs proofs.PiecewiseProofs proofs.PiecewiseInlineProofs proofs.IdemProofs proofs.CodecProofs proofs.BridgeProofs.
 Open Scope string_scope.
 
 (** parsing an already parsed (marked) schema returns it unchanged and copies its embedded
@@ -52,6 +52,24 @@ Theorem C12_reparse_partial : forall f j ns wh st d p st' f2 wh2 st2 d2 p2 st2',
   canon p2 = canon p /\ carried_names p2 = carried_names p.
 Proof. exact reparse_same. Qed.
 Print Assumptions C12_reparse_partial.
+
+(** C12_reparse, in full: the parser accepts its own output.  Every node parsed with
+    _write_hint=False (all inner nodes, every sub-schema the loader parses) parsed again in the same
+    state (names and dictionary) with the same default is accepted and gives the SAME output and
+    the SAME state; at the top, with any _write_hint, the same holds for the output with its two
+    marker keys removed (the reader's writer_schema).  This is the premise C12_reparse_partial left
+    open; that theorem remains for re-parses in a DIFFERENT state. *)
+Theorem C12_reparse : forall f j ns st d p st',
+  parse_rec f j ns false st d = POk (p, st') -> parse_rec f p ns false st d = POk (p, st').
+Proof. exact parse_rec_idem. Qed.
+Print Assumptions C12_reparse.
+
+Theorem C12_reparse_top : forall f kv ns wh st d p st',
+  keys_free MARKER_KEYS kv = true ->
+  parse_rec f (JObj kv) ns wh st d = POk (p, st') ->
+  parse_rec f (strip_markers p) ns wh st d = POk (p, st').
+Proof. exact reparse_accepted. Qed.
+Print Assumptions C12_reparse_top.
 
 (** self-contained relative to the table: after inlining, every reference either follows its
     definition (document order) or names a type that is not a key of the table; in particular,
@@ -183,6 +201,17 @@ Example C12_piecewise_general_instance :
                   (JObj [("type", JStr "record"); ("name", JStr "n.A");
                          ("fields", JArr [JObj [("name", JStr "b"); ("type", JStr "n.B")];
                                           JObj [("name", JStr "c2"); ("type", JArr [JStr "null"; JStr "C"])]])]) = true.
+Proof. vm_compute. reflexivity. Qed.
+
+(* non-vacuity: the unmarked parse of the example, parsed again from the same (empty) state *)
+Example C12_reparse_instance :
+  match parse_rec 6 ex_parent_inline "" false (mkst [] []) None with
+  | POk (p, st') => match parse_rec 6 p "" false (mkst [] []) None with
+                    | POk (p2, st2) => json_eqb p2 p && named_eqb (st_tbl st2) (st_tbl st') && negb (json_eqb p ex_parent_inline)
+                    | _ => false
+                    end
+  | _ => false
+  end = true.
 Proof. vm_compute. reflexivity. Qed.
 
 Example C12_idempotent_instance : idem_check ex_parent_inline = true /\ reparse_check ex_parent_inline = true.
